@@ -12,6 +12,7 @@ import (
 	"context"
 	"encoding/json"
 	"fmt"
+	"os"
 	"sort"
 	"strings"
 	"sync"
@@ -49,7 +50,10 @@ type c01Plan struct {
 	Final    []c01Read       `json:"final"` // requests compared across nodes at quiescence
 	Faulty   bool            `json:"faulty"`
 	ContUser int             `json:"cont_user"` // user of the continuous feed; -1 none
-	ContNode int             `json:"cont_node"`
+	// ContChans are the channels the continuous feed asks for (empty = all: "*"); a feed that names its channels is
+	// woken only by changes notified for exactly those channels
+	ContChans []string `json:"cont_chans,omitempty"`
+	ContNode  int      `json:"cont_node"`
 }
 
 // static access: user -> channels (through admin grants; "ab" gets B through role r1)
@@ -152,10 +156,35 @@ func c01Generate(seed uint64, tier string, index int) json.RawMessage {
 	}
 	p.ContUser = r.Range(-1, len(c01Users)-1)
 	p.ContNode = r.Intn(2)
+	if p.ContUser >= 0 && r.Chance(400) {
+		p.ContChans = [][]string{{"A"}, {"B"}, {"A", "B"}, {"A", "C"}}[r.Intn(4)]
+	}
 	p.Faulty = index%2 == 1
 	if p.Faulty {
 		p.Cfg.MaxFaults = r.Range(1, 6)
 		p.Cfg.FaultPermille = map[string]int{simstore.AltCasMiss: 80, simstore.AltFeedDedup: 120, simstore.AltFeedRedeliver: 100}
+	}
+	if index%16 == 7 {
+		// directed: a document in a channel the continuous feed's user cannot see is written twice and the feed drops
+		// the first of the two mutations (deduplication); a write in the user's channel that took the sequence in
+		// between waits in the cache for the gap to close, which happens when the second mutation arrives and names the
+		// first one among its recent sequences.  Nothing is written to the user's channel afterwards: the feed has to
+		// be woken by the arrival that closes the gap.
+		wn := r.Intn(2)
+		p.Writers = [][]c01Op{{
+			{Kind: "put", Doc: 0, Chans: []string{"A"}, Node: r.Intn(2)}, {Kind: "idle", Delta: 300},
+			{Kind: "put", Doc: 1, Chans: []string{"B"}, Node: wn}, {Kind: "put", Doc: 2, Chans: []string{"A"}, Node: r.Intn(2)}, {Kind: "put", Doc: 1, Chans: []string{"B"}, Node: wn},
+			{Kind: "idle", Delta: 500}, // the mutations arrive while the run is still going (faults are off once it only drains)
+		}}
+		p.Readers = nil
+		p.ContUser = 2 // the user with channel A only
+		p.ContChans = []string{"A"}
+		p.Faulty = true
+		p.Cfg.MaxFaults = 4
+		p.Cfg.FaultPermille = map[string]int{simstore.AltFeedDedup: 700}
+		p.Nodes[0].DedupOnlyKey, p.Nodes[1].DedupOnlyKey = "doc1", "doc1"
+		p.Nodes[0].FeedLagMs, p.Nodes[1].FeedLagMs = 40, 40
+		p.Cfg.ClockPermille, p.Cfg.ClockStepsMs = 20, []int{1, 5, 20}
 	}
 	return mustJSON(p)
 }
@@ -228,6 +257,9 @@ type c01Model struct {
 	// finding) stored a lower sequence over a higher one: caches and storage then legitimately
 	// disagree and the run is reported under that finding's key instead of being judged.
 	regress string
+	// replaced is set when a resurrection write replaced a stored state it was not built on (same finding, the
+	// sequence going up): the mutation of the replaced state may already be in the caches
+	replaced string
 }
 
 func (m *c01Model) observe(o simstore.OpInfo) {
@@ -254,6 +286,12 @@ func (m *c01Model) observe(o simstore.OpInfo) {
 	m.mu.Lock()
 	if prev := m.states[o.Key]; len(prev) > 0 && prev[len(prev)-1].Seq > st.Seq && o.Op == "WriteResurrectionWithXattrs" && m.regress == "" {
 		m.regress = fmt.Sprintf("%s: resurrection write stored sequence %d over sequence %d", o.Key, st.Seq, prev[len(prev)-1].Seq)
+	}
+	if prev := m.states[o.Key]; len(prev) > 0 && o.Op == "WriteResurrectionWithXattrs" && m.replaced == "" && m.regress == "" {
+		last := prev[len(prev)-1]
+		if _, has := sd.History[last.Rev]; !has && last.Rev != "" && len(sd.History) > 0 {
+			m.replaced = fmt.Sprintf("%s: resurrection write (sequence %d, revision %s) replaced the stored state of sequence %d whose revision %s it does not contain", o.Key, st.Seq, st.Rev, last.Seq, last.Rev)
+		}
 	}
 	m.states[o.Key] = append(m.states[o.Key], st)
 	m.mu.Unlock()
@@ -658,7 +696,11 @@ func c01Run(env *verifsim.Env, raw json.RawMessage) *verifsim.Violation {
 			coll, ctx := n.collection(cw.user(n, p.ContUser))
 			cctx, cancel := context.WithCancel(ctx)
 			contCancel = cancel
-			feed, err := coll.MultiChangesFeed(ctx, base.SetOf("*"), ChangesOptions{Continuous: true, Wait: true, ChangesCtx: cctx})
+			contChans := base.SetOf("*")
+			if len(p.ContChans) > 0 {
+				contChans = base.SetOf(p.ContChans...)
+			}
+			feed, err := coll.MultiChangesFeed(ctx, contChans, ChangesOptions{Continuous: true, Wait: true, ChangesCtx: cctx})
 			if err != nil || feed == nil {
 				return
 			}
@@ -679,6 +721,14 @@ func c01Run(env *verifsim.Env, raw json.RawMessage) *verifsim.Violation {
 	cw.model.mu.Lock()
 	regress := cw.model.regress
 	cw.model.mu.Unlock()
+	if replaced := func() string { cw.model.mu.Lock(); defer cw.model.mu.Unlock(); return cw.model.replaced }(); replaced != "" && regress == "" {
+		if contCancel != nil {
+			contCancel()
+		}
+		v := verifsim.Vf("C01", "storage-state-replaced", "%s; channel caches (fed by the mutation feed, which may have delivered the replaced state) and storage-backed queries can no longer agree", replaced)
+		v.Key = "unguarded-resurrection-write"
+		return v
+	}
 	if regress != "" {
 		if contCancel != nil {
 			contCancel()
@@ -729,6 +779,15 @@ func c01Run(env *verifsim.Env, raw json.RawMessage) *verifsim.Violation {
 					base0 = rows
 				} else if ok, diff := rowsEqual(base0, rows); !ok {
 					vio = verifsim.Vf("C01", "cache-independence", "the same request (user %q channels %v since %s limit %d active_only %v) gives different rows on %s and %s: %s; %s: %v; %s: %v", c01Users[rd.User].Name, rd.Chans, since.String(), rd.Limit, rd.Active, all[0].name, n.name, diff, all[0].name, rowsBrief(base0), n.name, rowsBrief(rows))
+					if os.Getenv("VERIF_C01_DEBUG") != "" {
+						coll, cctx := n.collection(nil)
+						for i := 0; i < 6; i++ {
+							if d, derr := coll.GetDocument(cctx, docID(i), DocUnmarshalAll); derr == nil && d != nil {
+								chj, _ := json.Marshal(d.Channels)
+								fmt.Fprintf(os.Stderr, "C01DBG %s seq %d rev %s flags %d recent %v channels %s history %v\n", docID(i), d.Sequence, d.GetRevTreeID(), d.Flags, d.RecentSequences, chj, d.History.GetLeaves())
+							}
+						}
+					}
 					return
 				}
 			}
@@ -782,7 +841,13 @@ func c01Run(env *verifsim.Env, raw json.RawMessage) *verifsim.Violation {
 			contMu.Lock()
 			rows := append([]changeRow{}, contRows...)
 			contMu.Unlock()
+			if os.Getenv("VERIF_C01_DEBUG") != "" {
+				fmt.Fprintf(os.Stderr, "C01DBG cont user %d rows %v faults %v\n", p.ContUser, rowIDs(rows), s.Stats().Faults)
+			}
 			rd := c01Read{User: p.ContUser, Chans: []string{"*"}}
+			if len(p.ContChans) > 0 {
+				rd.Chans = p.ContChans
+			}
 			if v := cw.checkRowsContinuous(rd, rows); v != nil {
 				vio = v
 				return
